@@ -76,3 +76,19 @@ def ranking_container(ctx, names, tag="rk", which=None):
     if k == "dict":
         return GroupedList({n: [n] for n in names})
     return names
+
+
+def cells_same(a, b):
+    """cell-by-cell identity of two concrete columns, missing values (None / NaN) equal to themselves"""
+    if len(a) != len(b):
+        return False
+    for x, y in zip(a, b):
+        if x is y or (x is None and y is None):
+            continue
+        if x is None or y is None:
+            return False
+        if isinstance(x, float) and isinstance(y, float) and x != x and y != y:
+            continue
+        if type(x) != type(y) or not (x == y):
+            return False
+    return True
